@@ -35,3 +35,62 @@ def SamplingOp : Op → Prop
   | _ => False
 
 end NautilusVerif.Core
+
+namespace NautilusVerif.Core
+/-! decidability (used only by the non-vacuity examples) -/
+instance decOpOK (env : Env) (s : St) : (op : Op) → Decidable (OpOK env s op)
+  | .addSamples _ _ _ => by unfold OpOK; infer_instance
+  | .addBound _ => by unfold OpOK; infer_instance
+  | .endExploration _ => by unfold OpOK; infer_instance
+  | .setDiscard _ => by unfold OpOK; infer_instance
+
+def decWF (env : Env) : (s : St) → (ops : List Op) → Decidable (WF env s ops)
+  | _, [] => isTrue trivial
+  | s, op :: ops => by
+    unfold WF
+    exact @instDecidableAnd _ _ (decOpOK env s op) (decWF env _ ops)
+
+instance (env : Env) (s : St) (ops : List Op) : Decidable (WF env s ops) := decWF env s ops
+
+instance decPhaseOK (s : St) : (op : Op) → Decidable (PhaseOK s op)
+  | .addSamples _ _ _ => by unfold PhaseOK; infer_instance
+  | .addBound _ => by unfold PhaseOK; infer_instance
+  | .endExploration _ => by unfold PhaseOK; infer_instance
+  | .setDiscard _ => by unfold PhaseOK; infer_instance
+
+def decRunShaped (env : Env) : (s : St) → (ops : List Op) → Decidable (RunShaped env s ops)
+  | _, [] => isTrue trivial
+  | s, op :: ops => by
+    unfold RunShaped
+    exact @instDecidableAnd _ _ (decPhaseOK s op) (decRunShaped env _ ops)
+
+instance (env : Env) (s : St) (ops : List Op) : Decidable (RunShaped env s ops) := decRunShaped env s ops
+end NautilusVerif.Core
+
+namespace NautilusVerif.Core
+/-- `add_samples(-1)` (filling the newest bound, with transfers) is only reached while exploring -/
+def TransferPhase (s : St) : Op → Prop
+  | .addSamples none _ _ => s.explored = false
+  | _ => True
+
+def TPhase (env : Env) : St → List Op → Prop
+  | _, [] => True
+  | s, op :: ops => TransferPhase s op ∧ TPhase env (step env s op).1 ops
+end NautilusVerif.Core
+
+namespace NautilusVerif.Core
+instance decTransferPhase (s : St) : (op : Op) → Decidable (TransferPhase s op)
+  | .addSamples none _ _ => by unfold TransferPhase; infer_instance
+  | .addSamples (some _) _ _ => by unfold TransferPhase; infer_instance
+  | .addBound _ => by unfold TransferPhase; infer_instance
+  | .endExploration _ => by unfold TransferPhase; infer_instance
+  | .setDiscard _ => by unfold TransferPhase; infer_instance
+
+def decTPhase (env : Env) : (s : St) → (ops : List Op) → Decidable (TPhase env s ops)
+  | _, [] => isTrue trivial
+  | s, op :: ops => by
+    unfold TPhase
+    exact @instDecidableAnd _ _ (decTransferPhase s op) (decTPhase env _ ops)
+
+instance (env : Env) (s : St) (ops : List Op) : Decidable (TPhase env s ops) := decTPhase env s ops
+end NautilusVerif.Core
